@@ -64,6 +64,19 @@ class LinBinding:
     def skip(self):
         return ()
 
+    def probe_labels(self, mab, full):
+        x = [[1] * self.d, [2] * self.d]
+        first = self.spec_label(mab.arms[0])
+        last = self.spec_label(mab.arms[-1])
+        q = [{"op": "predict_expectations", "X": x}, {"op": "predict", "X": x}, {"op": "cold_arms"}]
+        if not full:
+            return [q]
+        return [q,
+                [{"op": "partial_fit", "batch": [{"a": first, "r": 1, "x": [1] * self.d}]}] + q,
+                [{"op": "add_arm", "arm": "c"}] + q,
+                [{"op": "remove_arm", "arm": first}] + q,
+                [{"op": "fit", "batch": [{"a": last, "r": 1, "x": [2] * self.d}]}] + q]
+
     def policy(self):
         LP = _mab_module().LearningPolicy
         lam = float(self.lam)
@@ -168,9 +181,7 @@ class LinBinding:
         m = len(X)
         arms = list(obj.arms)
         if "readonly" in rep.checks:
-            after = snapshot(obj, rng=False, skip=skip)
-            if after != before:
-                rep.report("readonly.changed", "%s changed the model: %s" % (op, "; ".join(diff(before, after))), skey, label)
+            rep.check_readonly(obj, twin, op, before, skey, label, skip)
         rows, shape_ok = rows_of(value, m)
         if "shape" in rep.checks and not shape_ok:
             rep.report("shape.rows", "%s with %d rows returned %s (value %r)" % (op, m, type(value).__name__, _short(value)),
